@@ -36,7 +36,8 @@ CLAIMED = {
          "nested style nodes (reader_nodes_balanced, mutual structural induction over the tree); the SCC reader's italics are balanced for every instruction "
          "list (formatItalics_balanced, see C05); after a caption with flat balanced spans no span is left open in the DFXP writer whatever styles have a "
          "rendering (no_span_left_open, dfxpText_flag, dfxp_span_closed); WebVTT closing tags are the opening tags in reverse order for all eight style "
-         "combinations (vtt_tags_mirror). Execution: captions with 0-3 flat spans (single and combined styles, across breaks, adjacent, empty) through the "
+         "combinations (vtt_tags_mirror); for every caption whose style nodes are properly nested, whatever layouts split it into cues, every cue the WebVTT "
+         "writer produces carries balanced, properly nested tags (vtt_cues_balanced: token machine proved to render to the writer model's strings, stack invariant). Execution: captions with 0-3 flat spans (single and combined styles, across breaks, adjacent, empty) through the "
          "DFXP/SAMI/WebVTT writers, both readers and all four DFXP<->SAMI directions; per-character (i,b,u) flags and tag balance are extracted by independent "
          "parsers; the writers' text functions are compared with the Lean models."),
    ref="§3 C11", technique="Lean 4 proof (mutual structural induction on trees, state invariants, case analysis) + per-character flag oracle + correspondence",
@@ -58,7 +59,9 @@ CLAIMED = {
    text=("Lean theorems: DFXP div language = own xml:lang, else the document's, else the configured default (dfxp_lang_fallback); the languages of a document are "
          "exactly the resolved div languages, each once, in first-appearance order (dfxp_languages_first_appearance, invariant over the ordered-dict fold); "
          "for sorted non-overlapping cues the SAMI SYNC blocks of a language come out in non-decreasing time order (primary_syncs_sorted, via C02's sync-plan "
-         "theorem). The multi-language SAMI sync plan (lookup of an existing block, insertion after the last earlier / before the first later one) is an "
+         "theorem); after the SAMI writer's loop over the languages the stylesheet contains the rule 'lang: <code>;' of EVERY language, whatever the codes "
+         "(stylesheet_declares_every_language; the searched text is regenerated from the source; the pre-repair test is refuted by "
+         "stylesheet_old_test_counterexample). The multi-language SAMI sync plan (lookup of an existing block, insertion after the last earlier / before the first later one) is an "
          "executable model compared with the writer for 1-4 languages; DFXP/SAMI outputs are parsed independently (one div per language in order with its "
          "cues; paragraphs in the block of their start time) and read back; force=, WebVTT lang=, reader lang= and the div-language fallback incl. "
          "PYCAPTION_DEFAULT_LANG are exercised (sub-process)."),
@@ -89,7 +92,8 @@ CLAIMED = {
    text=("Lean theorems by kernel evaluation over the regenerated writer tables: every code the writer can emit for a character (basic, special, extended, the "
          "fallback) and every fixed control word has odd parity in each byte (writer_bytes_odd_parity, fixed_words_odd_parity); for rows 1-15 the writer's "
          "preamble is decoded by the READER's table as exactly that row at column 0 (writer_pac_decodes_to_row); bottom alignment keeps rows within 1-15 "
-         "(rows_1_15). Executable model of _text_to_code, the pre-roll pass and _format_timestamp compared byte-for-byte with the writer's output; the output is "
+         "(rows_1_15); every character code of the writer's tables is decoded by the reader's tables as that character, and no two characters share a code "
+         "(writer_chars_decode_back, writer_codes_injective). Executable model of _text_to_code, the pre-roll pass and _format_timestamp compared byte-for-byte with the writer's output; the output is "
          "checked structurally (header, hex words, parity, rows, 32 columns, breaks at spaces only, non-decreasing timecodes, visible within 3 frames) and "
          "re-read with the real SCCReader (same words, one caption per caption)."),
    ref="§3 C17", technique="Lean 4 proof (decide +kernel over generated tables, omega) + byte-level correspondence + structural oracle + re-read",
